@@ -157,38 +157,71 @@ def work(arg):
     if model.startswith('RY') and geometry == 'cylinder':
         scan = numpy.geomspace(call['bound'] * (1 + 1e-6), 50.0, 250)
     phi = numpy.array([call['fun'](x) for x in scan])
+    # The potential is repulsive next to the wall, passes through its minimum at l* and rises to zero for wide pores. The method
+    # inverts the ATTRACTIVE branch (l >= l*): pressures below exp(phi(l*)) or above exp(phi(50 nm)) correspond to no pore width
+    # at all and lie outside the property's domain. Roots are bracketed by sign changes on the scan and refined by bisection.
+    istar = int(numpy.nanargmin(phi))
     worst = 0.0
+    in_domain = numpy.zeros(k, dtype=bool)
+    no_root = 0
     for i in range(k):
         corr = 0.0
         if cov is not None:
             corr = 1 + 1 / cov[i] * math.log(1 - cov[i])
         target = call['pressure'][i]
+        if not target > 0:
+            continue
+        g = phi - corr - math.log(target)
+        roots = []
+        for j in range(istar + 1, len(scan) - 1):      # strictly beyond the (scan-resolved) potential minimum
+            if not (numpy.isfinite(g[j]) and numpy.isfinite(g[j + 1])):
+                continue
+            if g[j] == 0 or g[j] * g[j + 1] < 0:
+                lo_, hi_, glo = scan[j], scan[j + 1], g[j]
+                for _ in range(60):
+                    mid_ = 0.5 * (lo_ + hi_)
+                    gm = call['fun'](mid_) - corr - math.log(target)
+                    if (gm < 0) == (glo < 0):
+                        lo_, glo = mid_, gm
+                    else:
+                        hi_ = mid_
+                r_ = 0.5 * (lo_ + hi_)
+                if abs(call['fun'](r_) - corr - math.log(target)) < 1e-6:      # a true root, not a jump of a piecewise potential
+                    roots.append(r_)
+        if not roots:
+            no_root += 1
+            continue
+        in_domain[i] = True
         with numpy.errstate(over='ignore'):
-            res_scan = numpy.abs(numpy.exp(phi - corr) - target)
             res_rep = abs(math.exp(min(700.0, call['fun'](raw[i]) - corr)) - target)
-        best = float(numpy.nanmin(res_scan))
-        # the reported width must be (nearly) as good as the best scanned one
-        ok = res_rep <= 10 * best + 1e-4 * target
-        worst = max(worst, res_rep / target)
-        if not ok:
-            j = int(numpy.nanargmin(res_scan))
+        near = min(abs(raw[i] - r_) for r_ in roots)
+        worst = max(worst, min(res_rep / target, near))
+        # the library's bounded Brent search stops at xatol = 1e-5 nm
+        if not (near <= 1e-4 or res_rep <= 2e-3 * target):
+            r_best = min(roots, key=lambda r_: abs(raw[i] - r_))
             extra = {'corrected': use_cy}
             if model.startswith('RY') and geometry == 'slit':
                 # the RY slit potential switches expression where the pore holds two adsorbate layers
                 nl_rep = (raw[i] - d_mat) / ads['molecular_diameter']
-                nl_best = (scan[j] - d_mat) / ads['molecular_diameter']
+                nl_best = (r_best - d_mat) / ads['molecular_diameter']
                 extra['across_layer_count_discontinuity'] = bool((nl_rep < 2) != (nl_best < 2))
-            v('not-a-solution', f'solved width {raw[i]:.6g} nm for p={target:.4g} has residual {res_rep:.3g} but width {scan[j]:.6g} nm gives {best:.3g}: the reported width does not solve the potential equation',
-              float(scan[j]), float(raw[i]), extra)
+            else:
+                extra['case'] = f'{mat_name}/{ads_name}/{T:g} K'
+            v('not-a-solution', f'solved width {raw[i]:.6g} nm for p={target:.4g} predicts p={math.exp(min(700.0, call["fun"](raw[i]) - corr)):.4g} (residual {res_rep:.3g}) while the attractive '
+              f'branch of the potential has its root(s) at {[round(float(r_), 6) for r_ in roots]} nm: the reported width does not solve the potential equation',
+              [float(r_) for r_ in roots], float(raw[i]), extra)
             break
+    out['no_root_in_domain'] = no_root
     out['worst_scan'] = worst
     # widths non-decreasing in pressure
     dec = numpy.diff(w_solved) < -1e-4          # the library's Brent search stops at xatol = 1e-5 nm
+    dec = dec & in_domain[:-1] & in_domain[1:] if len(dec) == len(in_domain) - 1 else dec      # pressures without a pore width say nothing
     if dec.any():
         i = int(numpy.argmax(dec))
         covi = float(cov[i + 1]) if cov is not None else None
         v('widths-decrease', f'pore widths decrease with pressure: {w_solved[i]:.5g} -> {w_solved[i + 1]:.5g} nm at p={pressure[i + 1]:.4g}' + (f' (coverage {covi:.3f})' if covi else ''),
-          None, w_solved, {'corrected': use_cy, 'high_coverage': bool(covi is not None and covi > 0.9)})
+          None, w_solved, dict({'corrected': use_cy, 'high_coverage': bool(covi is not None and covi > 0.9)},
+                               **({} if (covi is not None and covi > 0.9) or (model.startswith('RY') and geometry == 'slit') else {'case': f'{mat_name}/{ads_name}/{T:g} K'})))
     return out
 
 
